@@ -53,11 +53,23 @@ func (a *attempt) kindGood(k kind) bool {
 	return c != nil && c.OK && !c.Corrupt
 }
 
-func (a *attempt) eligible(v *mval) bool {
+// codeRule is the documented rule of resolveActiveValidators: active status, or activating exactly
+// in the epoch being resolved.
+func (a *attempt) codeRule(v *mval) bool {
 	s, ok := a.Seen[v.Idx]
 
 	return ok && (s.Active || s.Act == a.Epoch)
 }
+
+// implied says whether the validators answer itself implies that v is active in the epoch being
+// resolved: a pending validator whose activation epoch is not after it (and which does not exit before).
+func (a *attempt) implied(v *mval) bool {
+	s, ok := a.Seen[v.Idx]
+
+	return ok && s.Pending && s.Act <= a.Epoch && a.Epoch < s.Exit
+}
+
+func (a *attempt) eligible(v *mval) bool { return a.codeRule(v) || a.implied(v) }
 
 func parseAttempts(calls []callEv) []*attempt {
 	var out []*attempt
@@ -103,14 +115,19 @@ type analysis struct {
 	attempts []*attempt
 	demands  int
 
-	classifyMissing func(d demand) (plain, stale []string)
+	classifyMissing func(d demand) (plain, pendingPast, stale []string)
 }
 
-// staleSig is the one signature of "an active, assigned validator was left out because every
-// validators answer the scheduler got for that epoch predates its activation" (validator cache
-// refreshed only on the first slot of an epoch + resolveActiveValidators accepting a pending
-// validator only when its activation epoch equals the epoch being resolved).
+// staleSig is the signature of "an active, assigned validator was left out because every validators
+// answer the scheduler got for that epoch is so old that it does not even carry the validator's
+// activation epoch" (validator cache refreshed only on the first slot of an epoch, which a missed
+// tick can skip).
 const staleSig = "scheduler+validator-cache/active-assigned-validator-omitted/validators-answer-did-not-report-it-active"
+
+// pendingPastSig: same cause, but the (old) validators answer did carry the information: the
+// validator is listed as pending with an activation epoch before the epoch being resolved, and
+// resolveActiveValidators drops it because it only accepts ActivationEpoch == epoch.
+const pendingPastSig = "scheduler/resolve-active-validators/pending-validator-with-earlier-activation-epoch-omitted"
 
 var kindOfType = map[core.DutyType]kind{
 	core.DutyAttester: kAtt, core.DutyAggregator: kAtt, core.DutyProposer: kPro, core.DutySyncContribution: kSync,
@@ -183,24 +200,46 @@ func analyze(sc *scenario, sn snapshot, reorgFeature bool) *analysis {
 	lastFrame := len(sn.ticks) - 1
 
 	// classify says why validator v could be missing from duty (t, slot):
-	//  "offered": an attempt up to the slot's frame told the scheduler that v is active and delivered an intact <kind> answer
+	//  "offered": an attempt up to the slot's frame told the scheduler that v is active (status active, or activating exactly in that epoch) and delivered an intact <kind> answer
+	//  "offered-as-pending-with-earlier-activation-epoch": the validators answers only listed v as pending, but with an activation epoch before the epoch being resolved
 	//  "not-reported-active": intact <kind> answers were delivered only together with validators answers that do not list v as active
 	//  "no-intact-answer": no intact <kind> answer reached the scheduler (beacon node failures): omission is tolerated
+	// lastTrim is the last gate <= f at which a handled reorg event may have made the scheduler drop
+	// the duties of epoch e (it drops its resolved epoch when the event's epoch is lower; every higher
+	// epoch is treated as possibly dropped). Resolution runs before that gate no longer count.
+	lastTrim := func(e uint64, f int) int {
+		g := -1
+		if !reorgFeature {
+			return g
+		}
+		for _, r := range sn.reorgs {
+			if r.Gate <= f && r.Epoch < e && r.Gate > g {
+				g = r.Gate
+			}
+		}
+
+		return g
+	}
 	classify := func(v *mval, t core.DutyType, slot uint64) string {
 		e, k := sc.epochOf(slot), kindOfType[t]
 		f, ticked := frameOf[slot]
 		if !ticked {
 			f = lastFrame
 		}
-		res := "no-intact-answer"
+		trim := lastTrim(e, f)
+		res, rank := "no-intact-answer", 0
 		for _, a := range an.attempts {
-			if a.Frame > f || !a.HasEp || a.Epoch != e || !a.ValsOK || !a.kindGood(k) {
+			if a.Frame > f || a.Frame < trim || !a.HasEp || a.Epoch != e || !a.ValsOK || !a.kindGood(k) {
 				continue
 			}
-			if a.eligible(v) {
+			switch {
+			case a.codeRule(v):
 				return "offered"
+			case a.implied(v):
+				res, rank = "offered-as-pending-with-earlier-activation-epoch", 2
+			case rank < 1:
+				res, rank = "not-reported-active", 1
 			}
-			res = "not-reported-active"
 		}
 
 		return res
@@ -280,7 +319,7 @@ func analyze(sc *scenario, sn snapshot, reorgFeature bool) *analysis {
 			}
 		}
 		// completeness of the definition set
-		var omitted, stale []string
+		var omitted, pendingPast, stale []string
 		for pk, v := range expected {
 			if _, ok := tr.Set[pk]; ok {
 				continue
@@ -288,6 +327,8 @@ func analyze(sc *scenario, sn snapshot, reorgFeature bool) *analysis {
 			switch classify(v, tr.Duty.Type, slot) {
 			case "offered":
 				omitted = append(omitted, fmt.Sprint(v.Idx))
+			case "offered-as-pending-with-earlier-activation-epoch":
+				pendingPast = append(pendingPast, fmt.Sprint(v.Idx))
 			case "not-reported-active":
 				stale = append(stale, fmt.Sprint(v.Idx))
 			default:
@@ -295,7 +336,13 @@ func analyze(sc *scenario, sn snapshot, reorgFeature bool) *analysis {
 			}
 		}
 		sort.Strings(omitted)
+		sort.Strings(pendingPast)
 		sort.Strings(stale)
+		if len(pendingPast) > 0 {
+			add(pendingPastSig,
+				fmt.Sprintf("duty %v delivered without validators %v: they are active in epoch %d and assigned by the beacon node; the validators answers the scheduler used listed them as pending with an activation epoch before %d (cached status older than one epoch), and the scheduler only accepts a pending validator whose activation epoch equals the epoch being resolved", tr.Duty, pendingPast, e, e),
+				map[string]any{"duty": tr.Duty.String(), "omitted": pendingPast, "sub": tr.Sub})
+		}
 		if len(omitted) > 0 {
 			add("scheduler/trigger/incomplete-definition-set/"+tname,
 				fmt.Sprintf("duty %v delivered without validators %v although they are active, assigned, and were offered to the scheduler with an intact beacon node answer", tr.Duty, omitted),
@@ -354,7 +401,6 @@ func analyze(sc *scenario, sn snapshot, reorgFeature bool) *analysis {
 
 	// ---- no loss: walk the frames, track which epochs are resolved ----
 	resolvedAt := map[uint64]int{} // epoch -> frame in which the resolving attempt ran
-	modelR, haveR := uint64(0), false
 	reorgAt := map[int][]reorgEv{}
 	for _, r := range sn.reorgs {
 		reorgAt[r.Gate] = append(reorgAt[r.Gate], r)
@@ -362,10 +408,16 @@ func analyze(sc *scenario, sn snapshot, reorgFeature bool) *analysis {
 	ai := 0
 	for f := range sn.ticks {
 		for _, r := range reorgAt[f] {
-			if reorgFeature && haveR && r.Epoch < modelR {
-				delete(resolvedAt, modelR) // the scheduler drops that epoch's duties and resolves again
-				haveR = false
-				an.info["reorg_unresolved_epoch"]++
+			if !reorgFeature {
+				continue
+			}
+			// The scheduler drops the duties of its resolved epoch when the event's epoch is lower, and
+			// resolves again on the next slot. Every higher epoch is treated as dropped (conservative).
+			for e := range resolvedAt {
+				if r.Epoch < e {
+					delete(resolvedAt, e)
+					an.info["reorg_unresolved_epoch"]++
+				}
 			}
 		}
 		if f < lastFrame { // the last tick is the sentinel gate: its slot is never processed
@@ -396,20 +448,22 @@ func analyze(sc *scenario, sn snapshot, reorgFeature bool) *analysis {
 				if _, ok := resolvedAt[a.Epoch]; !ok {
 					resolvedAt[a.Epoch] = f
 				}
-				modelR, haveR = a.Epoch, true
 			}
 		}
 	}
-	an.classifyMissing = func(d demand) (plain, stale []string) {
+	an.classifyMissing = func(d demand) (plain, pendingPast, stale []string) {
 		for _, v := range d.Want {
-			if classify(v, d.Duty.Type, d.Duty.Slot) == "offered" {
+			switch classify(v, d.Duty.Type, d.Duty.Slot) {
+			case "offered":
 				plain = append(plain, fmt.Sprint(v.Idx))
-			} else {
+			case "offered-as-pending-with-earlier-activation-epoch":
+				pendingPast = append(pendingPast, fmt.Sprint(v.Idx))
+			default:
 				stale = append(stale, fmt.Sprint(v.Idx))
 			}
 		}
 
-		return plain, stale
+		return plain, pendingPast, stale
 	}
 
 	return an
